@@ -127,6 +127,34 @@ def run(res, proofs_ok, proofs_why, only=None):
                             "why": st + ["(record status codes: 0 Unknown, 1 Synchronized, 2 FreeRunning; the clock reads NOW + offset while each message is processed)"]})
         status_of = lambda out: [x for k, x in enumerate(out.split()[1:]) if k % 7 == 6]
         diffs += [d for d in tdiffs if status_of(d["impl"]) != status_of(d["model"])]
+        # ... nor on the reports before it: histories of reports with different update intervals, leap codes and
+        # ages through the real process_messages; once a measurement exists the status of every published
+        # record is the class of the report it was published for, judged by the clauses above
+        hists = [(rng.choice([1000, 50000]), _updater.gen_history(rng, 8, _updater.MIXES[k % len(_updater.MIXES)])) for k in range(150 if res.tier == "quick" else 5000)]
+        hlines = [_updater.line_of(d, h) for d, h in hists]
+        himpl = c.run_lines(c.build_harness("debug")[0], hlines)
+        hmodel = c.run_model(hlines)
+        res.evaluations += len(hlines)
+        for (d, h), ln, i, m in zip(hists, hlines, himpl, hmodel):
+            res.count("gen:classification inside a history")
+            recs = _updater.parse_out(i)
+            if status_of(i) != status_of(m):
+                diffs.append({"case": ln, "profile": "debug", "impl": i, "model": m})
+            if recs is None:
+                continue
+            measured = False
+            for k, (msg, r) in enumerate(zip(h, recs)):
+                if msg[0] != "r":
+                    continue
+                cl = "cls %d %d %d %d %d" % (msg[4], msg[5], msg[6], msg[7], msg[8])
+                measured = measured or _updater.classify(msg[4], msg[5], msg[6], msg[7], msg[8]) == 1
+                if measured:
+                    res.nontriv(ln)
+                    why = judge(cl, str(r[6]))
+                    if why:
+                        bad.append({"case": ln, "profile": "debug", "impl": i, "model": m,
+                                    "why": ["record %d (published for the report %s, after %d earlier messages): " % (k, cl, k)] + why})
+                        break
     res.extra["distinct_leap_codes"] = len(seen_leaps)
     res.samples = [{"case": lines[i], "impl": impl[i], "model": model[i]} for i in range(0, len(lines), max(1, len(lines) // 6))][:6]
     res.traces_validated = res.evaluations - len(diffs)
@@ -150,7 +178,7 @@ def replay(res, path):
     ln = case.get("case") if isinstance(case, dict) else None
     if ln is None and "first_differences" in r:
         ln = r["first_differences"][0]["case"]
-    if ln.startswith("updt"):
+    if ln.startswith("upd"):
         from props import _updater
         return _updater.replay_property("C08", res, path)
     rc = 0
